@@ -22,7 +22,7 @@ RULE = ("case = (prefix history, delta ops, selection); non-trivial = >= 2 chang
 CASES = {"quick": 160, "thorough": 2400}
 BUDGET_S = {"quick": 50, "thorough": 800}
 MIN_EVALS = {"quick": 60, "thorough": 600}
-FLOORS = {"commit_ok": 25, "oracle_selected": 25, "fault_runs": 60, "fault_raised_unchanged": 15}
+FLOORS = {"commit_ok": 25, "oracle_selected": 25, "fault_runs": 60, "fault_raised_unchanged": 15, "veto_runs": 5}
 ASSUMPTIONS = ["selection semantics: S = ids whose working or basis path lies inside a selected path and outside every excluded one; directories on the working-tree parent chain of S may take either state (the statement is silent on how parents are filled in); so may an unselected id that occupies or vacated a path of a selected id (old or new location of a selected rename)",
                "fault model: one Python exception at a function entry inside the commit pipeline modules, or one TransportError instead of a mutating transport operation; no double faults"]
 
@@ -367,10 +367,88 @@ def fault_sweep(ctx, template, spec, excl, expect_view, detail):
                  sample={"fault": kind, "position": k, "where": where, "raised": repr(raised)[:120], "tip_after": repr(tip1)} if k % 7 == 0 else None)
 
 
+def veto_case(ctx):
+    """A pre_commit hook vetoes the commit (raises): tips of the branch - and of its master when bound - and the
+    master's revisions must be unchanged; the tree still reports its changes."""
+    from breezy.branch import Branch
+    from breezy.controldir import ControlDir
+    from breezy.workingtree import WorkingTree
+
+    rng = ctx.rng
+    names = gen.Names(ctx.tier)
+    root = ctx.tmp("c01v")
+    bound = rng.random() < 0.6
+    mpath = os.path.join(root, "master")
+    log = []
+    try:
+        mt = gen.make_tree(mpath, "2a")
+        gen.random_delta(rng, mt, names, rng.randint(2, 5), log=log)
+        mt.smart_add([mpath])
+        mt.commit("base", rev_id=b"base")
+        if bound:
+            cpath = os.path.join(root, "checkout")
+            wt = mt.branch.create_checkout(cpath, lightweight=False)
+        else:
+            wt = mt
+        gen.random_delta(rng, wt, names, rng.randint(2, 6), log=log)
+        wt.smart_add([wt.basedir])
+    except Exception as e:
+        ctx.discard("workload construction failed: %s" % type(e).__name__)
+    pre = _changes(wt)
+    if not pre:
+        ctx.discard("no pending change")
+
+    def state():
+        out = {}
+        for nm, pth in (("master", mpath),) + ((("local", wt.basedir),) if bound else ()):
+            b = Branch.open(pth)
+            with b.lock_read():
+                out[nm] = (b.last_revision_info(), frozenset(b.repository.all_revision_ids()))
+        return out
+
+    s0 = state()
+
+    class Veto(Exception):
+        pass
+
+    def hook(*a, **kw):
+        raise Veto("vetoed by pre_commit hook")
+
+    Branch.hooks.install_named_hook("pre_commit", hook, "vf-veto")
+    raised = None
+    try:
+        try:
+            wt.commit("vetoed", rev_id=b"vetoed-rev")
+        except Veto as e:
+            raised = e
+    finally:
+        Branch.hooks.uninstall_named_hook("pre_commit", "vf-veto")
+    ctx.count("veto_runs")
+    detail = {"bound": bound, "ops": log[-20:]}
+    if raised is None:
+        ctx.fail("veto:commit-did-not-raise", "a raising pre_commit hook did not stop the commit", detail)
+        return
+    s1 = state()
+    for nm in s0:
+        if s1[nm][0] != s0[nm][0]:
+            ctx.fail("veto:%s-tip-moved" % nm, "vetoed commit moved the %s tip %r -> %r" % (nm, s0[nm][0], s1[nm][0]), detail)
+        new = s1[nm][1] - s0[nm][1]
+        if new and (nm == "master" and bound):
+            ctx.fail("veto:master-repository-got-revision", "vetoed commit in a bound branch added %r to the master repository" % (sorted(new),), detail)
+        elif new:
+            # the local repository keeps the revision: the write group is committed before the hooks run (known, see fault half)
+            ctx.hist("veto:local-revision-visible")
+    wt2 = WorkingTree.open(wt.basedir)
+    ctx.check(_changes(wt2) == pre, "veto:tree-status-changed", "pending changes differ after the vetoed commit", detail)
+    ctx.note(("veto", bound, len(pre)), nontrivial=True, sample={"scenario": "pre_commit veto", "bound": bound, "pending_changes": len(pre)})
+
+
 def case(ctx):
     from breezy.workingtree import WorkingTree
 
     instr.install()
+    if ctx.index % 8 == 5:
+        return veto_case(ctx)
     rng = ctx.rng
     fmt = "2a" if (ctx.tier == "quick" or rng.random() < 0.6) else rng.choice(["pack-0.92", "rich-root-pack"])
     try:
